@@ -114,7 +114,8 @@ class CancelLike(BaseException):
 
 EXC = {"KeyError": KeyError, "TypeError": TypeError, "AttributeError": AttributeError, "ValueError": ValueError,
        "RuntimeError": RuntimeError, "LookupError": LookupError, "AssertionError": AssertionError,
-       "CancelLike": CancelLike, "StopAsyncIteration": StopAsyncIteration}
+       "CancelLike": CancelLike, "StopAsyncIteration": StopAsyncIteration, "Exception": Exception,
+       "BaseException": BaseException}
 # inside an async generator (any_iter, await_each) the interpreter itself turns Stop(Async)Iteration into RuntimeError
 GEN_EXC = [k for k in EXC if k != "StopAsyncIteration"]
 
@@ -385,8 +386,16 @@ def run_any_iter(case, stats):
             exp_aw = [i for i in exp_aw if i % 3]
         if awaited != exp_aw:
             viols.append({"key": "any_iter/await-order", "msg": f"any_iter {case}: item awaitables awaited {awaited}, expected {exp_aw}"})
-    # un-awaited coroutines of the list shape are ours to dispose of
+    # un-awaited coroutines of the list shape are ours to dispose of - and must still be ours: any_iter may
+    # neither start nor close an item its consumer never asked for
     if case["item_aw"] and case["cont"] == "list":
+        import inspect
+        spoiled = [i for i, c in enumerate(cont) if i >= case["steps"] and inspect.iscoroutine(c)
+                   and inspect.getcoroutinestate(c) != inspect.CORO_CREATED]
+        if spoiled:
+            viols.append({"key": "any_iter/touches-what-was-not-asked-for",
+                          "msg": f"any_iter {case}: after {case['steps']} steps and aclose() the item awaitables {spoiled} were "
+                                 f"started or closed"})
         for c in cont:
             if hasattr(c, "close") and hasattr(c, "cr_frame"):
                 c.close()
